@@ -8,7 +8,7 @@ use crate::refm::fmt::{self, Prec};
 use crate::refm::round::{round_int, Mode};
 use crate::refm::tz::{Disamb, Zone, S};
 use crate::run::*;
-use crate::tzp::TableProvider;
+use crate::tzp::{AnyProvider, TableProvider};
 use proptest::prelude::*;
 use serde::{Deserialize, Serialize};
 use serde_json::Value;
@@ -51,30 +51,38 @@ pub enum ZoneKind {
     Fixed(i32),
     /// named zone served by the harness provider from this rule table
     Table(Zone),
+    /// real IANA zone resolved end to end by the crate's bundled provider; `window` is the part of the zone's
+    /// listed TZif transitions (read by the harness's own TZif reader, props/c15/tzif.rs) around the case's point
+    /// in time and is what the oracle uses
+    Real { name: String, window: Zone },
 }
 impl ZoneKind {
     pub fn zone(&self) -> Zone {
         match self {
             ZoneKind::Fixed(m) => Zone::fixed("fixed", *m as i64 * 60),
             ZoneKind::Table(z) => z.clone(),
+            ZoneKind::Real { window, .. } => window.clone(),
         }
     }
     pub fn timezone(&self) -> TimeZone {
         match self {
             ZoneKind::Fixed(m) => TimeZone::try_from_identifier_str(&fmt::offset_minutes(*m as i64)).expect("offset zone"),
             ZoneKind::Table(z) => TimeZone::IanaIdentifier(z.name.clone()),
+            ZoneKind::Real { name, .. } => TimeZone::IanaIdentifier(name.clone()),
         }
     }
-    pub fn provider(&self) -> TableProvider {
+    pub fn provider(&self) -> AnyProvider {
         match self {
-            ZoneKind::Fixed(_) => TableProvider::utc_only(),
-            ZoneKind::Table(z) => TableProvider::new(vec![z.clone()]),
+            ZoneKind::Fixed(_) => AnyProvider::Table(TableProvider::utc_only()),
+            ZoneKind::Table(z) => AnyProvider::Table(TableProvider::new(vec![z.clone()])),
+            ZoneKind::Real { .. } => AnyProvider::Bundled(crate::tzp::bundled()),
         }
     }
     pub fn ident(&self) -> String {
         match self {
             ZoneKind::Fixed(m) => fmt::offset_minutes(*m as i64),
             ZoneKind::Table(z) => z.name.clone(),
+            ZoneKind::Real { name, .. } => name.clone(),
         }
     }
 }
@@ -182,7 +190,7 @@ impl SubCheck for Sub {
         let z = c.zone.zone();
         let tz = c.zone.timezone();
         let mut prov = c.zone.provider();
-        prov.reverse_candidates = c.reverse;
+        prov.set_reverse(c.reverse);
         let mut o = Outcome::pass();
         if c.reverse {
             o = o.class("provider-candidates-descending");
@@ -190,6 +198,7 @@ impl SubCheck for Sub {
         o = o.class(match c.zone {
             ZoneKind::Fixed(_) => "zone:fixed-offset",
             ZoneKind::Table(_) => "zone:table",
+            ZoneKind::Real { .. } => "zone:real-iana-bundled-provider",
         });
         match c.route {
             Route::Getters => {
@@ -404,6 +413,55 @@ pub fn shaped_zones() -> Vec<Zone> {
     ]
 }
 
+/// Listed transitions (type 0 + transition table, no footer) of every Zone of the installed tz database, read
+/// with the harness's own TZif reader. Empty when /usr/share/zoneinfo is absent.
+pub fn real_tables() -> &'static Vec<Zone> {
+    static T: std::sync::OnceLock<Vec<Zone>> = std::sync::OnceLock::new();
+    T.get_or_init(|| {
+        use crate::props::c15::tzif;
+        let dir = "/usr/share/zoneinfo";
+        let Ok((_, zones, _)) = tzif::tzdata_names(&format!("{dir}/tzdata.zi")) else { return vec![] };
+        let mut out = vec![];
+        for name in zones {
+            let Ok(bytes) = std::fs::read(format!("{dir}/{name}")) else { continue };
+            let Ok(f) = tzif::parse_tzif(&bytes) else { continue };
+            let trans: Vec<(i64, i64)> = f.times.iter().zip(f.idx.iter()).map(|(t, i)| (*t, f.types[*i].utoff)).collect();
+            if trans.len() >= 6 {
+                out.push(Zone { name, initial: f.types[0].utoff, trans });
+            }
+        }
+        out
+    })
+}
+
+/// A window of a real zone around one of its listed transitions: (zone, window table, index of the anchor
+/// transition inside the window). The anchor is never one of the last two listed transitions (beyond them the
+/// bundled provider evaluates the POSIX footer, whose open defects are C15's findings), changes the offset, and has
+/// no other offset change within 3 days (the assumption of this module's oracle).
+pub fn real_window(zi: usize, ti: usize) -> Option<(String, Zone, usize)> {
+    let tabs = real_tables();
+    if tabs.is_empty() {
+        return None;
+    }
+    let z = &tabs[zi % tabs.len()];
+    let n = z.trans.len();
+    // candidate anchors
+    let off_before = |i: usize| if i == 0 { z.initial } else { z.trans[i - 1].1 };
+    let ok = |i: usize| {
+        i + 2 < n
+            && z.trans[i].1 != off_before(i)
+            && (i == 0 || z.trans[i].0 - z.trans[i - 1].0 >= 3 * 86400 || z.trans[i - 1].1 == off_before(i - 1) && false)
+            && z.trans[i + 1].0 - z.trans[i].0 >= 3 * 86400
+            && z.trans[i].0 > -12_000_000_000
+    };
+    let start = ti % n;
+    let i = (0..n).map(|k| (start + k) % n).find(|i| ok(*i))?;
+    let lo = i.saturating_sub(3);
+    let hi = (i + 3).min(n - 1);
+    let window = Zone { name: z.name.clone(), initial: off_before(lo), trans: z.trans[lo..=hi].to_vec() };
+    Some((z.name.clone(), window, i - lo))
+}
+
 fn zone_kind() -> BoxedStrategy<ZoneKind> {
     let shaped = shaped_zones();
     prop_oneof![
@@ -411,6 +469,12 @@ fn zone_kind() -> BoxedStrategy<ZoneKind> {
         1 => proptest::sample::select(vec![0i32, 60, -60, 330, 345, -210, 840, -720, 1439, -1439]).prop_map(ZoneKind::Fixed),
         6 => syn_zone().prop_map(ZoneKind::Table),
         3 => proptest::sample::select(shaped).prop_map(ZoneKind::Table),
+        // real zones: the same window once through the harness provider, once end to end through the bundled one
+        4 => (any::<u16>(), any::<u16>(), any::<bool>()).prop_map(|(zi, ti, bundled)| match real_window(zi as usize, ti as usize) {
+            Some((name, window, _)) if bundled => ZoneKind::Real { name, window },
+            Some((_, window, _)) => ZoneKind::Table(window),
+            None => ZoneKind::Fixed(0),
+        }),
     ]
     .boxed()
 }
@@ -425,6 +489,7 @@ pub fn case() -> BoxedStrategy<Case> {
             let off = [OffOpt::Use, OffOpt::Prefer, OffOpt::Ignore, OffOpt::Reject][off as usize];
             // pick the instant / wall time: around a transition, or uniform
             let n = z.trans.len();
+            let is_real = matches!(zone, ZoneKind::Real { .. });
             let (tr_t, ob, oa) = if n == 0 {
                 (0i128, z.initial, z.initial)
             } else {
@@ -456,6 +521,15 @@ pub fn case() -> BoxedStrategy<Case> {
                 }
             };
             let t = t.clamp(-MAX_INSTANT + 2 * DAY, MAX_INSTANT - 2 * DAY);
+            // a real zone is only known to the oracle inside its window: stay at least 2 days inside it
+            let t = if is_real && n >= 2 {
+                let lo = z.trans[0].0 as i128 * S + 2 * DAY;
+                let hi = z.trans[n - 1].0 as i128 * S - 2 * DAY;
+                if t < lo || t > hi { (tr_t + dsec * S + dns).clamp(lo, hi) } else { t }
+            } else {
+                t
+            };
+            let reverse = reverse && !is_real;
             // an explicit offset: right one, rounded to the minute, the other candidate's, wrong, or Z
             let given = if matches!(route, Route::Str | Route::Partial | Route::RelativeToStr) {
                 let cands = z.instants(t);
@@ -496,7 +570,7 @@ pub fn case() -> BoxedStrategy<Case> {
 }
 
 pub fn run(ctx: &mut Ctx) {
-    ctx.rule = "zones: every kind of fixed offset (TimeZone::UtcOffset), synthetic rule tables (1-12 transitions >= 3 days apart anywhere in +-1e11 s, offsets within +-15 h incl. non-zero seconds, shifts from 1 minute to 26 h in both directions) and hand-written tables shaped like New York / Lord Howe / Apia (24 h skip) / Dublin (negative DST) / Kolkata (LMT seconds) / Kiritimati, served through the harness TimeZoneProvider. points: within +-2 days of a transition (at the edges +-1 ns, inside gaps and overlaps) or uniform. routes: ZonedDateTime getters of an instant; PlainDateTime/PlainDate.toZonedDateTime; from_str and from_partial with an explicit offset (correct, rounded to the minute, the other candidate's, wrong) or Z x 4 disambiguations x 4 offset options. oracle: brute force over the rule table + Temporal's disambiguation/offset rules. non-trivial = wall time inside a gap or overlap, explicit offset or Z present, shift > 3 h, offset with non-zero minutes/seconds.".into();
+    ctx.rule = "zones: every kind of fixed offset (TimeZone::UtcOffset), synthetic rule tables (1-12 transitions >= 3 days apart anywhere in +-1e11 s, offsets within +-15 h incl. non-zero seconds, shifts from 1 minute to 26 h in both directions) and hand-written tables shaped like New York / Lord Howe / Apia (24 h skip) / Dublin (negative DST) / Kolkata (LMT seconds) / Kiritimati, served through the harness TimeZoneProvider; plus windows (anchor transition +-3 neighbours) of every real IANA zone's listed TZif transitions (harness reader), half of them served by the harness provider, half resolved end to end by the crate's bundled provider. points: within +-2 days of a transition (at the edges +-1 ns, inside gaps and overlaps) or uniform. routes: ZonedDateTime getters of an instant; PlainDateTime/PlainDate.toZonedDateTime; from_str and from_partial with an explicit offset (correct, rounded to the minute, the other candidate's, wrong) or Z x 4 disambiguations x 4 offset options. oracle: brute force over the rule table + Temporal's disambiguation/offset rules. non-trivial = wall time inside a gap or overlap, explicit offset or Z present, shift > 3 h, offset with non-zero minutes/seconds.".into();
     ctx.assumptions = vec![
         "provider contract: candidates ascending; transition_epoch = second at which the offset in force began (tzp.rs)".into(),
         "rule sets whose gaps/overlaps interact (transitions closer than 3 days) are excluded by construction".into(),
